@@ -1,9 +1,20 @@
 //! C06: the library reads back its own SGR output and applies it with SGR semantics.
-//! Correspondence: `c06 number|sgrface|apply` — Lean models of number_decode, sgr_face, FaceModify::apply.
-//! Oracle (Lean, verified spec): `c06 ref` — reference SGR machine on the same parameter bytes.
-//! Oracle (Rust, independent): encode → decode round trips of FaceModify / Face / text through the
-//! real TTYEncoder and TTYCommandDecoder; tty_writer() over a recording CellWrite against a
-//! reference SGR machine, under random chunking of the written bytes.
+//! Correspondence: `c06 number|sgrface|apply` — Lean models of number_decode, sgr_face, FaceModify::apply
+//! (also on malformed parameter strings, which are outside the property's quantifier and are checked by
+//! correspondence ONLY: their behaviour is recorded, never judged).
+//! Oracle (Lean, verified spec): `c06 ref` — reference SGR machine on the same parameter bytes (theorem
+//! C06_apply_sgr); `c06 refx` — the same machine with the four parameters a face-modification record cannot
+//! express (7, 27, 39, 49) as no-ops (theorem C06_apply_sgr_x), used for strings that contain one of them.
+//! Oracle (Rust, independent, literal colour tables): a reference SGR machine; every well-formed parameter
+//! string is judged against (a) the full reference — a mismatch on a string with an inexpressible parameter is
+//! the known finding C06-inexpressible — and (b) the reference with those four parameters ignored — a mismatch
+//! there is a genuine failure that nothing masks.
+//! Round trips through the real TTYEncoder (true colour) and TTYCommandDecoder under random read cuts: FaceModify,
+//! Face, and mixed sequences of face commands and characters (every scalar value but ESC: controls, DEL, C1,
+//! encoding-length boundaries); judged by the COMPOSED effect of the decoded commands, so an encoder that splits
+//! one change into several SGR sequences with the same meaning is not reported.
+//! tty_writer() over a recording CellWrite that starts from a RANDOM face, against the reference machine, under
+//! random write cuts.
 use serde_json::json;
 use std::io::Write;
 use surf_n_term::{
@@ -110,58 +121,132 @@ fn rnd_modify(rng: &mut Rng) -> FaceModify {
     }
 }
 
-/// one SGR parameter atom; `inexpressible` = the face-modification record has no field for it
-fn rnd_atom(rng: &mut Rng) -> (String, bool) {
+/// what a generated SGR parameter atom is with respect to the property
+#[derive(Clone, Copy, PartialEq, Eq, PartialOrd, Ord, Debug)]
+enum Kind {
+    /// well-formed, expressible: judged by both oracles
+    Plain,
+    /// well-formed, but the face-modification record has no field for it (7, 27, 39, 49)
+    Inexpressible,
+    /// malformed (truncated / out-of-range colour, unknown underline style, sub-parameters where none are
+    /// defined, a lone 38 / 48 / 58): outside the property's quantifier — correspondence only
+    Malformed,
+}
+
+/// single-number parameters the decoder supports
+const SUPPORTED: [usize; 12] = [0, 1, 3, 4, 5, 9, 21, 22, 23, 24, 25, 29];
+/// legal SGR parameters the decoder does not support (and neighbours of the supported ranges): no effect
+const UNSUPPORTED: [&str; 30] = [
+    "2", "6", "8", "10", "11", "15", "20", "26", "28", "50", "51", "52", "53", "54", "55", "59", "60", "73", "75", "89",
+    "98", "99", "108", "109", "255", "256", "1000", "65536", "18446744073709551615", "99999999999999999999999",
+];
+const MALFORMED: [&str; 30] = [
+    "4:6", "4:7", "4:9", "4:10", "4:", "4:1:2", "1:2", "38;5", "48;5", "38;5;300", "48;5;256", "38;2;1;2", "48;2;7",
+    "38;2;256;1;1", "48;2;1;300;1", "38", "48", "58", "38;7", "48;1", "38:5", "38:2:1:2", "38:5:300", "38:2::256:0:0",
+    "38:3:1", "58:5", "38;2", "38;5;", "38:2", "38;2;;;",
+];
+
+fn zeros(rng: &mut Rng) -> String {
+    "0".repeat(1 + rng.below(3) as usize)
+}
+
+/// one SGR parameter atom
+fn rnd_atom(rng: &mut Rng) -> (String, Kind) {
     let n = |rng: &mut Rng| rng.below(256);
-    match rng.below(34) {
-        0 => ("0".into(), false),
-        1 => ("".into(), false),
-        2 => ("1".into(), false),
-        3 => ("3".into(), false),
-        4 => ("4".into(), false),
-        5 => (format!("4:{}", rng.below(6)), false),
-        6 => ("5".into(), false),
-        7 => ("9".into(), false),
-        8 => ("21".into(), false),
-        9 => ("22".into(), false),
-        10 => ("23".into(), false),
-        11 => ("24".into(), false),
-        12 => ("25".into(), false),
-        13 => ("29".into(), false),
-        14 => (format!("{}", 30 + rng.below(8)), false),
-        15 => (format!("{}", 40 + rng.below(8)), false),
-        16 => (format!("{}", 90 + rng.below(8)), false),
-        17 => (format!("{}", 100 + rng.below(8)), false),
-        18 | 19 => (format!("{};2;{};{};{}", *rng.pick(&[38, 48]), n(rng), n(rng), n(rng)), false),
-        20 => (format!("{};5;{}", *rng.pick(&[38, 48]), n(rng)), false),
-        21 => (format!("{}:2::{}:{}:{}", *rng.pick(&[38, 48]), n(rng), n(rng), n(rng)), false),
-        22 => (format!("{}:2:{}:{}:{}", *rng.pick(&[38, 48]), n(rng), n(rng), n(rng)), false),
-        23 => (format!("{}:5:{}", *rng.pick(&[38, 48]), n(rng)), false),
-        24 => (format!("58;2;{};{};{}", n(rng), n(rng), n(rng)), false),
-        25 => (format!("58:5:{}", n(rng)), false),
-        26 => ("001".into(), false),
-        27 => ("7".into(), true),
-        28 => ("27".into(), true),
-        29 => ("39".into(), true),
-        30 => ("49".into(), true),
-        _ => (format!("{};5;{}", *rng.pick(&[38, 48]), *rng.pick(&[0, 15, 16, 231, 232, 255])), false),
+    let plain = |s: String| (s, Kind::Plain);
+    match rng.below(46) {
+        0 => plain("0".into()),
+        1 => plain("".into()),
+        2 => plain("1".into()),
+        3 => plain("3".into()),
+        4 => plain("4".into()),
+        5 => plain(format!("4:{}", rng.below(6))),
+        6 => plain("5".into()),
+        7 => plain("9".into()),
+        8 => plain("21".into()),
+        9 => plain("22".into()),
+        10 => plain("23".into()),
+        11 => plain("24".into()),
+        12 => plain("25".into()),
+        13 => plain("29".into()),
+        14 => plain(format!("{}", 30 + rng.below(8))),
+        15 => plain(format!("{}", 40 + rng.below(8))),
+        16 => plain(format!("{}", 90 + rng.below(8))),
+        17 => plain(format!("{}", 100 + rng.below(8))),
+        18 | 19 => plain(format!("{};2;{};{};{}", *rng.pick(&[38, 48]), n(rng), n(rng), n(rng))),
+        20 => plain(format!("{};5;{}", *rng.pick(&[38, 48]), n(rng))),
+        21 => plain(format!("{}:2::{}:{}:{}", *rng.pick(&[38, 48]), n(rng), n(rng), n(rng))),
+        22 => plain(format!("{}:2:{}:{}:{}", *rng.pick(&[38, 48]), n(rng), n(rng), n(rng))),
+        23 => plain(format!("{}:5:{}", *rng.pick(&[38, 48]), n(rng))),
+        24 => plain(format!("58;2;{};{};{}", n(rng), n(rng), n(rng))),
+        25 => plain(format!("58:5:{}", n(rng))),
+        // leading zeros on a supported single-number parameter or a named colour
+        26 | 27 => {
+            let code = match rng.below(3) {
+                0 => *rng.pick(&SUPPORTED),
+                1 => *rng.pick(&[30usize, 40, 90, 100]) + rng.below(8) as usize,
+                _ => *rng.pick(&[2usize, 8, 53, 59]),
+            };
+            plain(format!("{}{}", zeros(rng), code))
+        }
+        // legal but unsupported parameters: no effect on either side
+        28 | 29 | 30 => plain((*rng.pick(&UNSUPPORTED)).to_string()),
+        // leading zeros inside colour forms and underline styles
+        31 => plain(format!("{};2;{}{};{}{};{}", *rng.pick(&[38, 48]), zeros(rng), n(rng), zeros(rng), n(rng), n(rng))),
+        32 => plain(format!("{};5;{}{}", *rng.pick(&[38, 48]), zeros(rng), n(rng))),
+        33 => plain(format!("{}:2::{}{}:{}:{}{}", *rng.pick(&[38, 48]), zeros(rng), n(rng), n(rng), zeros(rng), n(rng))),
+        34 => plain(format!("4:{}{}", zeros(rng), rng.below(6))),
+        35 => (format!("{}", *rng.pick(&["7", "27", "39", "49", "007", "039"])), Kind::Inexpressible),
+        36 => ("7".into(), Kind::Inexpressible),
+        37 => ("27".into(), Kind::Inexpressible),
+        38 => ("39".into(), Kind::Inexpressible),
+        39 => ("49".into(), Kind::Inexpressible),
+        40 | 41 => ((*rng.pick(&MALFORMED)).to_string(), Kind::Malformed),
+        // leading zeros on the selector numbers of a colour form; a colour-space id in the colon form
+        42 => plain(format!("{}{};{}2;{};{};{}", zeros(rng), *rng.pick(&[38, 48]), zeros(rng), n(rng), n(rng), n(rng))),
+        43 => plain(format!("{}:2:{}:{}:{}:{}", *rng.pick(&[38, 48]), rng.below(4), n(rng), n(rng), n(rng))),
+        _ => plain(format!("{};5;{}", *rng.pick(&[38, 48]), *rng.pick(&[0, 7, 8, 15, 16, 231, 232, 255]))),
     }
 }
 
-/// arbitrary bytes of the SGR payload alphabet, for totality / model correspondence only
+/// arbitrary bytes of the SGR payload alphabet, for model correspondence only
 fn rnd_garbage(rng: &mut Rng) -> String {
-    let pool = ["0", "1", "2", "3", "4", "5", "8", "9", ";", ":", ";;", "38", "48", "58", "255", "256", "99999999999999999999999"];
+    let pool = [
+        "0", "1", "2", "3", "4", "5", "6", "7", "8", "9", ";", ":", ";;", "38", "48", "58", "255", "256",
+        "99999999999999999999999",
+    ];
     (0..rng.below(9)).map(|_| *rng.pick(&pool)).collect()
 }
 
-/// independent reference: SGR semantics on a face, restricted to what a Face can hold (no underline
-/// colour); palette through the xterm formulas
-fn xterm_palette(i: usize, named: &[RGBA; 16]) -> Option<RGBA> {
+/// The library's naming table of the sixteen named colours — a LITERAL copy (never read from the
+/// implementation: a permuted or changed `COLORS` entry must disagree with this reference).
+const NAMED: [(u8, u8, u8); 16] = [
+    (0, 0, 0),
+    (128, 0, 0),
+    (0, 128, 0),
+    (128, 128, 0),
+    (0, 0, 128),
+    (128, 0, 128),
+    (0, 128, 128),
+    (192, 192, 192),
+    (128, 128, 128),
+    (255, 0, 0),
+    (0, 255, 0),
+    (255, 255, 0),
+    (0, 0, 255),
+    (255, 0, 255),
+    (0, 255, 255),
+    (255, 255, 255),
+];
+
+/// independent reference: the xterm 256-colour palette (literal tables and formulas)
+fn xterm_palette(i: u128) -> Option<RGBA> {
     const CUBE: [u8; 6] = [0, 95, 135, 175, 215, 255];
     if i < 16 {
-        Some(named[i])
+        let (r, g, b) = NAMED[i as usize];
+        Some(RGBA::new(r, g, b, 255))
     } else if i < 232 {
-        let i = i - 16;
+        let i = (i - 16) as usize;
         Some(RGBA::new(CUBE[i / 36], CUBE[(i / 6) % 6], CUBE[i % 6], 255))
     } else if i < 256 {
         let v = (8 + 10 * (i - 232)) as u8;
@@ -176,93 +261,169 @@ fn set_under(attrs: FaceAttrs, style: usize) -> FaceAttrs {
     if style == 0 { cleared } else { cleared.insert(UNDERS[style].into()) }
 }
 
-/// apply one atom (already split into its `;` groups, each into `:` numbers) — reference semantics
-fn ref_apply(face: &mut Face, atoms: &str, named: &[RGBA; 16]) {
-    let groups: Vec<Vec<Option<usize>>> = atoms
-        .split(';')
-        .map(|g| g.split(':').map(|n| if n.is_empty() { None } else { n.parse().ok() }).collect())
-        .collect();
+type Param = Vec<Option<u128>>;
+
+/// `Ps ; Ps : Ps ; …` → parameters with sub-parameters (empty = default); `None` when not numeric
+fn parse_params(data: &str) -> Option<Vec<Param>> {
+    data.split(';')
+        .map(|g| {
+            g.split(':')
+                .map(|n| {
+                    if n.is_empty() {
+                        Some(None)
+                    } else if n.bytes().all(|b| b.is_ascii_digit()) {
+                        Some(Some(n.bytes().fold(0u128, |a, b| a.saturating_mul(10).saturating_add((b - b'0') as u128))))
+                    } else {
+                        None
+                    }
+                })
+                .collect::<Option<Param>>()
+        })
+        .collect()
+}
+
+/// Reference SGR machine (xterm ctlseqs, "Character Attributes (SGR)") on what a `Face` can hold (no underline
+/// colour). `ignore_inexpressible`: 7 / 27 / 39 / 49 are no-ops.
+fn ref_apply(face: &mut Face, data: &str, ignore_inexpressible: bool) {
+    let Some(groups) = parse_params(data) else { return };
+    let one = |g: &Param| if g.len() == 1 { g[0] } else { None };
+    let rgb = |r: u128, g: u128, b: u128| {
+        if r < 256 && g < 256 && b < 256 { Some(RGBA::new(r as u8, g as u8, b as u8, 255)) } else { None }
+    };
     let mut i = 0;
     while i < groups.len() {
         let g = &groups[i];
         let mut adv = 1;
-        let color_at = |role: usize, groups: &Vec<Vec<Option<usize>>>, i: usize| -> (Option<Option<RGBA>>, usize) {
-            let _ = role;
-            let g = &groups[i];
-            if g.len() > 1 {
-                // colon form
-                match g[1] {
-                    Some(5) if g.len() == 3 => (g[2].map(|n| xterm_palette(n, named)), 1),
-                    Some(2) if g.len() == 5 => (
-                        Some(Some(RGBA::new(g[2].unwrap_or(0) as u8, g[3].unwrap_or(0) as u8, g[4].unwrap_or(0) as u8, 255))),
-                        1,
-                    ),
-                    Some(2) if g.len() == 6 => (
-                        Some(Some(RGBA::new(g[3].unwrap_or(0) as u8, g[4].unwrap_or(0) as u8, g[5].unwrap_or(0) as u8, 255))),
-                        1,
-                    ),
-                    _ => (None, 1),
-                }
-            } else if i + 2 < groups.len() && groups[i + 1] == vec![Some(5)] {
-                (groups[i + 2][0].map(|n| xterm_palette(n, named)), 3)
-            } else if i + 4 < groups.len() && groups[i + 1] == vec![Some(2)] {
-                let c = |k: usize| groups[i + k][0].unwrap_or(0) as u8;
-                (Some(Some(RGBA::new(c(2), c(3), c(4), 255))), 5)
-            } else {
-                (None, 1)
-            }
-        };
-        match g[0] {
-            None | Some(0) if g.len() == 1 => *face = Face::default(),
-            Some(1) => face.attrs = face.attrs.insert(FaceAttrs::BOLD),
-            Some(3) => face.attrs = face.attrs.insert(FaceAttrs::ITALIC),
-            Some(5) => face.attrs = face.attrs.insert(FaceAttrs::BLINK),
-            Some(7) => face.attrs = face.attrs.insert(FaceAttrs::REVERSE),
-            Some(9) => face.attrs = face.attrs.insert(FaceAttrs::STRIKE),
-            Some(22) => face.attrs = face.attrs.remove(FaceAttrs::BOLD),
-            Some(23) => face.attrs = face.attrs.remove(FaceAttrs::ITALIC),
-            Some(25) => face.attrs = face.attrs.remove(FaceAttrs::BLINK),
-            Some(27) => face.attrs = face.attrs.remove(FaceAttrs::REVERSE),
-            Some(29) => face.attrs = face.attrs.remove(FaceAttrs::STRIKE),
-            Some(4) => {
-                let style = if g.len() > 1 { g[1].unwrap_or(1) } else { 1 };
-                if style <= 5 {
-                    face.attrs = set_under(face.attrs, style);
+        // (role, colour) of a colour parameter: role 0 fg, 1 bg, 2 underline colour
+        let mut color: Option<(u128, Option<RGBA>)> = None;
+        if let (1, Some(role @ (38 | 48 | 58))) = (g.len(), g[0]) {
+            // semicolon forms: the colour consumes the following parameters
+            if i + 4 < groups.len() && groups[i + 1] == vec![Some(2)] {
+                if let (Some(r), Some(gg), Some(b)) = (one(&groups[i + 2]), one(&groups[i + 3]), one(&groups[i + 4])) {
+                    color = Some((role, rgb(r, gg, b)));
+                    adv = 5;
                 }
             }
-            Some(21) => face.attrs = set_under(face.attrs, 2),
-            Some(24) => face.attrs = set_under(face.attrs, 0),
-            Some(39) => face.fg = None,
-            Some(49) => face.bg = None,
-            Some(v @ 30..=37) => face.fg = Some(named[v - 30]),
-            Some(v @ 90..=97) => face.fg = Some(named[v - 90 + 8]),
-            Some(v @ 40..=47) => face.bg = Some(named[v - 40]),
-            Some(v @ 100..=107) => face.bg = Some(named[v - 100 + 8]),
-            Some(38) => {
-                let (c, n) = color_at(0, &groups, i);
-                if let Some(Some(c)) = c {
-                    face.fg = Some(c);
+            if color.is_none() && i + 2 < groups.len() && groups[i + 1] == vec![Some(5)] {
+                if let Some(n) = one(&groups[i + 2]) {
+                    color = Some((role, xterm_palette(n)));
+                    adv = 3;
                 }
-                adv = n;
             }
-            Some(48) => {
-                let (c, n) = color_at(1, &groups, i);
-                if let Some(Some(c)) = c {
-                    face.bg = Some(c);
-                }
-                adv = n;
+        } else {
+            match g.as_slice() {
+                [None] | [Some(0)] => *face = Face::default(),
+                [Some(1)] => face.attrs = face.attrs.insert(FaceAttrs::BOLD),
+                [Some(3)] => face.attrs = face.attrs.insert(FaceAttrs::ITALIC),
+                [Some(5)] => face.attrs = face.attrs.insert(FaceAttrs::BLINK),
+                [Some(9)] => face.attrs = face.attrs.insert(FaceAttrs::STRIKE),
+                [Some(22)] => face.attrs = face.attrs.remove(FaceAttrs::BOLD),
+                [Some(23)] => face.attrs = face.attrs.remove(FaceAttrs::ITALIC),
+                [Some(25)] => face.attrs = face.attrs.remove(FaceAttrs::BLINK),
+                [Some(29)] => face.attrs = face.attrs.remove(FaceAttrs::STRIKE),
+                [Some(7)] if !ignore_inexpressible => face.attrs = face.attrs.insert(FaceAttrs::REVERSE),
+                [Some(27)] if !ignore_inexpressible => face.attrs = face.attrs.remove(FaceAttrs::REVERSE),
+                [Some(39)] if !ignore_inexpressible => face.fg = None,
+                [Some(49)] if !ignore_inexpressible => face.bg = None,
+                [Some(4)] => face.attrs = set_under(face.attrs, 1),
+                [Some(4), Some(k)] if *k <= 5 => face.attrs = set_under(face.attrs, *k as usize),
+                [Some(21)] => face.attrs = set_under(face.attrs, 2),
+                [Some(24)] => face.attrs = set_under(face.attrs, 0),
+                [Some(v @ 30..=37)] => face.fg = xterm_palette(*v - 30),
+                [Some(v @ 90..=97)] => face.fg = xterm_palette(*v - 90 + 8),
+                [Some(v @ 40..=47)] => face.bg = xterm_palette(*v - 40),
+                [Some(v @ 100..=107)] => face.bg = xterm_palette(*v - 100 + 8),
+                // colon forms carry the colour as sub-parameters
+                [Some(role @ (38 | 48 | 58)), Some(2), _, Some(r), Some(gg), Some(b)] => color = Some((*role, rgb(*r, *gg, *b))),
+                [Some(role @ (38 | 48 | 58)), Some(2), Some(r), Some(gg), Some(b)] => color = Some((*role, rgb(*r, *gg, *b))),
+                [Some(role @ (38 | 48 | 58)), Some(5), Some(n)] => color = Some((*role, xterm_palette(*n))),
+                _ => {}
             }
-            Some(58) => {
-                let (_, n) = color_at(2, &groups, i);
-                adv = n;
-            }
+        }
+        match color {
+            Some((38, Some(c))) => face.fg = Some(c),
+            Some((48, Some(c))) => face.bg = Some(c),
             _ => {}
         }
         i += adv;
     }
 }
 
-#[derive(Default)]
+/// sequential composition of face modifications as ONE record: `apply(compose(ms)) = apply(m_k) ∘ … ∘ apply(m_1)`
+fn compose(ms: &[FaceModify]) -> FaceModify {
+    let mut acc = FaceModify::default();
+    for m in ms {
+        if m.reset {
+            acc = *m;
+        } else {
+            acc = FaceModify {
+                reset: acc.reset,
+                fg: m.fg.or(acc.fg),
+                bg: m.bg.or(acc.bg),
+                underline: m.underline.or(acc.underline),
+                underline_color: m.underline_color.or(acc.underline_color),
+                bold: m.bold.or(acc.bold),
+                italic: m.italic.or(acc.italic),
+                blink: m.blink.or(acc.blink),
+                strike: m.strike.or(acc.strike),
+            };
+        }
+    }
+    acc
+}
+
+/// normal form of a record as a face CHANGE: after a reset "leave unchanged" and "turn off" coincide
+fn norm(m: FaceModify) -> FaceModify {
+    if !m.reset {
+        return m;
+    }
+    FaceModify {
+        underline: Some(m.underline.unwrap_or(UnderlineStyle::None)),
+        bold: Some(m.bold.unwrap_or(false)),
+        italic: Some(m.italic.unwrap_or(false)),
+        blink: Some(m.blink.unwrap_or(false)),
+        strike: Some(m.strike.unwrap_or(false)),
+        ..m
+    }
+}
+
+/// the face change a written `Face` command stands for, as far as a face-modification record can say it
+/// (everything but REVERSE)
+fn face_change(f: &Face) -> FaceModify {
+    let a = f.attrs;
+    FaceModify {
+        reset: true,
+        fg: f.fg,
+        bg: f.bg,
+        underline: Some(a.underline()),
+        underline_color: None,
+        bold: Some(a.contains(FaceAttrs::BOLD)),
+        italic: Some(a.contains(FaceAttrs::ITALIC)),
+        blink: Some(a.contains(FaceAttrs::BLINK)),
+        strike: Some(a.contains(FaceAttrs::STRIKE)),
+    }
+}
+
+/// characters of the property's domain: every Unicode scalar value except ESC — controls, DEL, C1, the
+/// boundaries of the UTF-8 encoding lengths and of the surrogate gap included
+fn rnd_char(rng: &mut Rng) -> char {
+    const POOL: [char; 40] = [
+        'a', 'Z', '9', ' ', ';', '[', 'm', ':', '~', 'é', '€', '𝄞', '漢', '\0', '\x01', '\x07', '\x08', '\t', '\n', '\r', '\x1a',
+        '\x1c', '\x1f', '\x7f', '\u{80}', '\u{85}', '\u{9b}', '\u{9f}', '\u{a0}', '\u{7ff}', '\u{800}', '\u{d7ff}', '\u{e000}',
+        '\u{fffd}', '\u{ffff}', '\u{10000}', '\u{10ffff}', '\u{1a}', '\u{1c}', '\u{1e}',
+    ];
+    if rng.chance(1, 5) {
+        loop {
+            if let Some(c) = char::from_u32(rng.below(0x110000) as u32) {
+                if c != '\x1b' {
+                    return c;
+                }
+            }
+        }
+    }
+    *rng.pick(&POOL)
+}
+
 struct Recorder {
     face: Face,
     wraps: bool,
@@ -349,18 +510,34 @@ fn main() {
     }
     let mut out: Out = cfg.out();
     verif_harness::silence_panics();
-    let mut rng = Rng::new(cfg.seed);
-    let scale: u64 = if cfg.thorough { 40 } else { 1 };
-    let (named, _, _) = verif_c06::palette_tables();
+    // replay: re-run the generation of the recorded run (same seed and tier: all randomness comes from the one
+    // generator) and emit ONLY the recorded case `<section>#<index>`; everything else goes to a sink
+    let (seed, thorough, target) = match &cfg.replay {
+        Some(r) => (
+            r["seed"].as_u64().unwrap_or(cfg.seed),
+            r["tier"].as_str().map(|t| t == "thorough").unwrap_or(cfg.thorough),
+            r["failure"]["input"]["case"].as_str().map(String::from),
+        ),
+        None => (cfg.seed, cfg.thorough, None),
+    };
+    let mut sink = Out::new(&cfg.outdir.join("replay-sink"));
+    let mut rng = Rng::new(seed);
+    let scale: u64 = if thorough { 40 } else { 1 };
     let true_caps = TerminalCaps { depth: ColorDepth::TrueColor, glyphs: false, kitty_keyboard: false };
 
-    // (a) number_decode
+    // (a) number_decode — correspondence only: what it returns for over-long digit strings (the model says:
+    // clamped at usize::MAX, theorem C06_number) is not part of the property, so no oracle judges it
     for i in 0..(2_000 * scale) {
+        let case = format!("num#{i}");
+        let o: &mut Out = if target.as_ref().map_or(true, |t| *t == case) { &mut out } else { &mut sink };
         let len = if i % 7 == 0 { 18 + rng.below(12) } else { rng.below(6) };
         let mut s: String = (0..len).map(|_| char::from(b'0' + rng.below(10) as u8)).collect();
         if rng.chance(1, 10) && !s.is_empty() {
             let p = rng.below(s.len() as u64) as usize;
             s.replace_range(p..p + 1, *rng.pick(&[":", ";", "a", " ", "-"]));
+        }
+        if rng.chance(1, 8) {
+            s = format!("{}{s}", zeros(&mut rng));
         }
         let got = guarded(|| verif_c06::number_decode(s.as_bytes()));
         let got_s = match got {
@@ -368,138 +545,276 @@ fn main() {
             Ok(None) => "none".to_string(),
             Ok(Some(n)) => n.to_string(),
         };
-        out.case(&format!("num {s}"), len > 0);
-        out.hist("number_decode");
-        out.corr(&format!("c06 number {}", hex(s.as_bytes())), &got_s);
-        // independent oracle: decimal value clamped at usize::MAX, never wrapped
-        if s.bytes().all(|b| b.is_ascii_digit()) {
-            let exact = s.bytes().fold(0u128, |a, b| (a * 10 + (b - b'0') as u128).min(u128::MAX / 16));
-            let want = exact.min(usize::MAX as u128).to_string();
-            if got_s != want {
-                out.fail("number_decode is not the clamped decimal value", json!({"digits": s}), json!(want), json!(got_s));
-            }
-        }
+        o.case(&format!("num {s}"), len > 0);
+        o.hist("number_decode");
+        o.corr(&format!("c06 number {}", hex(s.as_bytes())), &got_s);
     }
 
     // (b)+(c)+(d) sgr_face / apply / reference semantics on parameter strings
-    for i in 0..(6_000 * scale) {
-        let wellformed = i % 4 != 3;
-        let (data, inexpressible) = if wellformed {
+    let mut malformed_samples = 0;
+    for i in 0..(8_000 * scale) {
+        let case = format!("sgr#{i}");
+        let o: &mut Out = if target.as_ref().map_or(true, |t| *t == case) { &mut out } else { &mut sink };
+        let garbage = i % 5 == 4;
+        let (data, kind) = if !garbage {
             let k = 1 + rng.below(5);
             let mut parts = Vec::new();
-            let mut inex = false;
+            let mut kind = Kind::Plain;
             for _ in 0..k {
                 let (a, x) = rnd_atom(&mut rng);
-                inex |= x;
+                kind = kind.max(x);
                 parts.push(a);
             }
-            (parts.join(";"), inex)
+            (parts.join(";"), kind)
         } else {
-            (rnd_garbage(&mut rng), false)
+            (rnd_garbage(&mut rng), Kind::Malformed)
         };
         let face = rnd_face(&mut rng);
         let hx = hex(data.as_bytes());
         let m = guarded(|| verif_c06::sgr_face(data.as_bytes()));
-        out.case(&format!("sgr {data} {}", face_tok(&face)), wellformed && data.len() > 1);
-        out.hist(if wellformed { "sgr:wellformed" } else { "sgr:garbage" });
+        o.case(&format!("sgr {data} {}", face_tok(&face)), !garbage && data.len() > 1);
+        o.hist(match (garbage, kind) {
+            (true, _) => "sgr:garbage",
+            (_, Kind::Plain) => "sgr:wellformed",
+            (_, Kind::Inexpressible) => "sgr:wellformed+inexpressible",
+            (_, Kind::Malformed) => "sgr:malformed",
+        });
         let Ok(m) = m else {
-            out.corr(&format!("c06 sgrface {hx}"), "panic");
-            out.fail("sgr_face panicked", json!({"data": data}), json!("a FaceModify"), json!("panic"));
+            o.corr(&format!("c06 sgrface {hx}"), "panic");
+            if kind != Kind::Malformed {
+                o.fail("C06: sgr_face panicked on a well-formed parameter string", json!({"case": case, "data": data}), json!("a FaceModify"), json!("panic"));
+            }
             continue;
         };
-        out.corr(&format!("c06 sgrface {hx}"), &fmod_tok(&m));
+        o.corr(&format!("c06 sgrface {hx}"), &fmod_tok(&m));
         let applied = m.apply(face);
-        out.corr(&format!("c06 apply {hx} {}", face_tok(&face)), &face_tok(&applied));
-        if wellformed {
-            // Rust reference machine (independent) and the Lean specification (`c06 ref`)
-            let mut want = face;
-            ref_apply(&mut want, &data, &named);
-            if inexpressible {
-                if applied != want {
-                    out.fail(
-                        "C06-inexpressible: SGR parameter the face-modification record cannot express is ignored",
-                        json!({"data": data, "face": face_tok(&face), "has_inexpressible_param": true}),
-                        json!(face_tok(&want)),
-                        json!(face_tok(&applied)),
-                    );
+        o.corr(&format!("c06 apply {hx} {}", face_tok(&face)), &face_tok(&applied));
+        match kind {
+            Kind::Malformed => {
+                // outside the domain: behaviour recorded (samples), nothing judged
+                if !garbage && malformed_samples < 4 && i % 37 == 0 {
+                    malformed_samples += 1;
+                    o.sample(json!({"malformed_sgr": data, "face": face_tok(&face), "applied": face_tok(&applied), "note": "outside the domain; behaviour recorded"}));
                 }
-            } else {
-                if applied != want {
-                    out.fail(
-                        "C06: face after an SGR sequence differs from SGR semantics",
-                        json!({"data": data, "face": face_tok(&face), "has_inexpressible_param": false}),
-                        json!(face_tok(&want)),
-                        json!(face_tok(&applied)),
-                    );
-                }
-                out.oracle(&format!("c06 ref {hx} {}", face_tok(&face)), &face_tok(&applied));
             }
-            if i % 997 == 0 {
-                out.sample(json!({"sgr": data, "face": face_tok(&face), "applied": face_tok(&applied)}));
+            Kind::Plain | Kind::Inexpressible => {
+                // (b) the reference with 7 / 27 / 39 / 49 ignored: a mismatch is genuine and is never masked
+                let mut want_ign = face;
+                ref_apply(&mut want_ign, &data, true);
+                if applied != want_ign {
+                    o.fail(
+                        "C06: face after an SGR sequence differs from SGR semantics",
+                        json!({"case": case, "data": data, "face": face_tok(&face), "has_inexpressible_param": false, "reference": "inexpressible parameters ignored"}),
+                        json!(face_tok(&want_ign)),
+                        json!(face_tok(&applied)),
+                    );
+                }
+                // (a) the full reference: differs only through an inexpressible parameter (known finding)
+                let mut want_full = face;
+                ref_apply(&mut want_full, &data, false);
+                if applied != want_full {
+                    let what = if kind == Kind::Inexpressible && applied == want_ign {
+                        "C06-inexpressible: SGR parameter the face-modification record cannot express is ignored"
+                    } else {
+                        "C06: face after an SGR sequence differs from SGR semantics"
+                    };
+                    o.fail(
+                        what,
+                        json!({"case": case, "data": data, "face": face_tok(&face), "has_inexpressible_param": kind == Kind::Inexpressible && applied == want_ign}),
+                        json!(face_tok(&want_full)),
+                        json!(face_tok(&applied)),
+                    );
+                }
+                // the Lean specification: `ref` (C06_apply_sgr) / `refx` (C06_apply_sgr_x)
+                if kind == Kind::Plain {
+                    o.oracle(&format!("c06 ref {hx} {}", face_tok(&face)), &face_tok(&applied));
+                }
+                o.oracle(&format!("c06 refx {hx} {}", face_tok(&face)), &face_tok(&applied));
+                if i % 997 == 0 {
+                    o.sample(json!({"sgr": data, "face": face_tok(&face), "applied": face_tok(&applied)}));
+                }
             }
         }
     }
 
-    // (e) encoder → decoder round trips
+    // (e) encoder → decoder round trips, judged by the COMPOSED effect of what is read back
+    let modify_of = |cmds: &[TerminalCommand]| -> Option<FaceModify> {
+        let mut ms = Vec::new();
+        for c in cmds {
+            match c {
+                TerminalCommand::FaceModify(m) => ms.push(*m),
+                _ => return None,
+            }
+        }
+        Some(compose(&ms))
+    };
     for i in 0..(4_000 * scale) {
+        let case = format!("rtm#{i}");
+        let o: &mut Out = if target.as_ref().map_or(true, |t| *t == case) { &mut out } else { &mut sink };
         let m = rnd_modify(&mut rng);
-        out.hist("roundtrip:modify");
-        out.case(&format!("rt {}", fmod_tok(&m)), true);
+        o.hist("roundtrip:modify");
+        o.case(&format!("rt {}", fmod_tok(&m)), true);
         let mut bytes = Vec::new();
         if TTYEncoder::new(true_caps.clone()).encode(&mut bytes, TerminalCommand::FaceModify(m)).is_err() {
-            out.fail("encode failed", json!({"modify": fmod_tok(&m)}), json!("bytes"), json!("error"));
+            o.fail("C06: encode failed", json!({"case": case, "modify": fmod_tok(&m)}), json!("bytes"), json!("error"));
             continue;
         }
         let cuts = rnd_cuts(&mut rng, bytes.len());
         let got = decode_all(&bytes, &cuts);
-        let want: Vec<TerminalCommand> = if m == FaceModify::default() { vec![] } else { vec![TerminalCommand::FaceModify(m)] };
-        if got.as_ref() != Ok(&want) {
-            out.fail(
+        let ok = match got.as_ref() {
+            Ok(cmds) => modify_of(cmds).map(norm) == Some(norm(m)),
+            Err(()) => false,
+        };
+        if !ok {
+            o.fail(
                 "C06: FaceModify does not read back from the encoder's own output",
-                json!({"modify": fmod_tok(&m), "bytes": String::from_utf8_lossy(&bytes), "cuts": cuts, "has_inexpressible_param": false}),
-                json!(format!("{want:?}")),
+                json!({"case": case, "modify": fmod_tok(&m), "bytes": String::from_utf8_lossy(&bytes), "cuts": cuts, "has_inexpressible_param": false}),
+                json!(format!("commands whose composition is {m:?}")),
                 json!(format!("{got:?}")),
             );
         }
         if i % 800 == 0 {
-            out.sample(json!({"modify": fmod_tok(&m), "bytes": String::from_utf8_lossy(&bytes)}));
+            o.sample(json!({"modify": fmod_tok(&m), "bytes": String::from_utf8_lossy(&bytes)}));
         }
-        // the same through the model: the model decoder applied to the real encoder's parameter bytes
-        if bytes.len() > 3 {
-            out.corr(&format!("c06 sgrface {}", hex(&bytes[2..bytes.len() - 1])), &fmod_tok(&m));
+        // correspondence (only when the encoder writes ONE sequence): the model decoder applied to the real
+        // encoder's parameter bytes gives what the real decoder gives
+        if bytes.len() > 3 && bytes.starts_with(b"\x1b[") && bytes.ends_with(b"m") && !bytes[1..].contains(&0x1b) {
+            let payload = &bytes[2..bytes.len() - 1];
+            if payload.iter().all(|b| (0x30..=0x3b).contains(b)) {
+                if let Ok(dm) = guarded(|| verif_c06::sgr_face(payload)) {
+                    o.corr(&format!("c06 sgrface {}", hex(payload)), &fmod_tok(&dm));
+                }
+            }
         }
     }
-    for _ in 0..(4_000 * scale) {
+    for i in 0..(4_000 * scale) {
+        let case = format!("rtf#{i}");
+        let o: &mut Out = if target.as_ref().map_or(true, |t| *t == case) { &mut out } else { &mut sink };
         let f = rnd_face(&mut rng);
-        out.hist("roundtrip:face");
-        out.case(&format!("rtf {}", face_tok(&f)), true);
+        o.hist("roundtrip:face");
+        o.case(&format!("rtf {}", face_tok(&f)), true);
         let mut bytes = Vec::new();
         if TTYEncoder::new(true_caps.clone()).encode(&mut bytes, TerminalCommand::Face(f)).is_err() {
+            o.fail("C06: encode failed", json!({"case": case, "face": face_tok(&f)}), json!("bytes"), json!("error"));
             continue;
         }
         let cuts = rnd_cuts(&mut rng, bytes.len());
         let got = decode_all(&bytes, &cuts);
         // what a face-modification record can express: everything but REVERSE
         let want = Face::new(f.fg, f.bg, f.attrs.remove(FaceAttrs::REVERSE));
-        let ok = match got.as_deref() {
-            Ok([TerminalCommand::FaceModify(m)]) => m.apply(rnd_face(&mut rng)) == want,
-            _ => false,
+        let ok = match got.as_ref() {
+            Ok(cmds) => match modify_of(cmds) {
+                Some(m) => m.apply(rnd_face(&mut rng)) == want && m.apply(Face::default()) == want,
+                None => false,
+            },
+            Err(()) => false,
         };
         if !ok {
-            out.fail(
+            o.fail(
                 "C06: Face does not read back from the encoder's own output",
-                json!({"face": face_tok(&f), "bytes": String::from_utf8_lossy(&bytes), "cuts": cuts, "has_inexpressible_param": false}),
+                json!({"case": case, "face": face_tok(&f), "bytes": String::from_utf8_lossy(&bytes), "cuts": cuts, "has_inexpressible_param": false}),
                 json!(face_tok(&want)),
                 json!(format!("{got:?}")),
             );
         }
     }
+    // mixed sequences of face commands and characters through the real encoder and decoder
+    for i in 0..(3_000 * scale) {
+        let case = format!("rts#{i}");
+        let o: &mut Out = if target.as_ref().map_or(true, |t| *t == case) { &mut out } else { &mut sink };
+        #[derive(Debug, PartialEq)]
+        enum Seg {
+            Char(char),
+            Change(FaceModify),
+        }
+        fn push_change(segs: &mut Vec<Seg>, m: FaceModify) {
+            if let Some(Seg::Change(prev)) = segs.last_mut() {
+                *prev = compose(&[*prev, m]);
+            } else {
+                segs.push(Seg::Change(m));
+            }
+        }
+        fn finish(segs: Vec<Seg>) -> Vec<Seg> {
+            segs.into_iter()
+                .filter_map(|s| match s {
+                    Seg::Change(m) if m == FaceModify::default() => None,
+                    Seg::Change(m) => Some(Seg::Change(norm(m))),
+                    c => Some(c),
+                })
+                .collect()
+        }
+        let mut bytes = Vec::new();
+        let mut want: Vec<Seg> = Vec::new();
+        let mut script = Vec::new();
+        let mut enc = TTYEncoder::new(true_caps.clone());
+        let mut enc_ok = true;
+        for _ in 0..(1 + rng.below(7)) {
+            let cmd = match rng.below(5) {
+                0 => {
+                    let m = rnd_modify(&mut rng);
+                    push_change(&mut want, m);
+                    script.push(format!("MODIFY {}", fmod_tok(&m)));
+                    TerminalCommand::FaceModify(m)
+                }
+                1 => {
+                    let f = rnd_face(&mut rng);
+                    push_change(&mut want, face_change(&f));
+                    script.push(format!("FACE {}", face_tok(&f)));
+                    TerminalCommand::Face(f)
+                }
+                _ => {
+                    let c = rnd_char(&mut rng);
+                    want.push(Seg::Char(c));
+                    script.push(format!("CHAR U+{:04X}", c as u32));
+                    TerminalCommand::Char(c)
+                }
+            };
+            enc_ok &= enc.encode(&mut bytes, cmd).is_ok();
+        }
+        o.hist("roundtrip:stream");
+        o.case(&format!("rts {}", hex(&bytes)), true);
+        if !enc_ok {
+            o.fail("C06: encode failed", json!({"case": case, "script": script}), json!("bytes"), json!("error"));
+            continue;
+        }
+        let cuts = rnd_cuts(&mut rng, bytes.len());
+        let got = decode_all(&bytes, &cuts);
+        let got_segs: Option<Vec<Seg>> = got.as_ref().ok().and_then(|cmds| {
+            let mut segs = Vec::new();
+            for c in cmds {
+                match c {
+                    TerminalCommand::Char(c) => segs.push(Seg::Char(*c)),
+                    TerminalCommand::FaceModify(m) => push_change(&mut segs, *m),
+                    _ => return None,
+                }
+            }
+            Some(finish(segs))
+        });
+        let want = finish(want);
+        if got_segs.as_ref() != Some(&want) {
+            o.fail(
+                "C06: face changes and characters do not read back from the encoder's own output",
+                json!({"case": case, "script": script, "bytes": hex(&bytes), "cuts": cuts, "has_inexpressible_param": false}),
+                json!(format!("{want:?}")),
+                json!(format!("{got:?}")),
+            );
+        }
+        if i % 900 == 0 {
+            o.sample(json!({"stream": script, "cuts": cuts}));
+        }
+    }
 
-    // (f)+(g) text and the cell writer under chunking
-    for i in 0..(2_500 * scale) {
+    // (f)+(g) text and the cell writer under chunking; the writer starts from a RANDOM face
+    for i in 0..(3_000 * scale) {
+        let case = format!("wr#{i}");
+        let o: &mut Out = if target.as_ref().map_or(true, |t| *t == case) { &mut out } else { &mut sink };
         let mut bytes: Vec<u8> = Vec::new();
-        let mut want_cells: Vec<(char, Face)> = Vec::new();
-        let mut cur = Face::default();
+        let start_face = if i % 4 == 0 { Face::default() } else { rnd_face(&mut rng) };
+        // expected cells under the full reference and under the reference with 7 / 27 / 39 / 49 ignored
+        let mut want_full: Vec<(char, Face)> = Vec::new();
+        let mut want_ign: Vec<(char, Face)> = Vec::new();
+        let mut cur_full = start_face;
+        let mut cur_ign = start_face;
         let mut inexpressible = false;
         let mut script = Vec::new();
         for _ in 0..(1 + rng.below(6)) {
@@ -507,27 +822,33 @@ fn main() {
                 let k = 1 + rng.below(3);
                 let mut parts = Vec::new();
                 for _ in 0..k {
-                    let (a, x) = rnd_atom(&mut rng);
-                    inexpressible |= x;
+                    let (a, x) = loop {
+                        let (a, x) = rnd_atom(&mut rng);
+                        if x != Kind::Malformed {
+                            break (a, x);
+                        }
+                    };
+                    inexpressible |= x == Kind::Inexpressible;
                     parts.push(a);
                 }
                 let data = parts.join(";");
-                ref_apply(&mut cur, &data, &named);
+                ref_apply(&mut cur_full, &data, false);
+                ref_apply(&mut cur_ign, &data, true);
                 bytes.extend(format!("\x1b[{data}m").as_bytes());
                 script.push(format!("SGR {data}"));
             } else {
-                let pool: Vec<char> = "aZ9 ;[m:é€𝄞漢~".chars().collect();
-                let txt: String = (0..1 + rng.below(4)).map(|_| *rng.pick(&pool)).collect();
+                let txt: String = (0..1 + rng.below(4)).map(|_| rnd_char(&mut rng)).collect();
                 for c in txt.chars() {
-                    want_cells.push((c, cur));
+                    want_full.push((c, cur_full));
+                    want_ign.push((c, cur_ign));
                 }
                 bytes.extend(txt.as_bytes());
-                script.push(format!("TEXT {txt}"));
+                script.push(format!("TEXT {}", txt.chars().map(|c| format!("U+{:04X}", c as u32)).collect::<Vec<_>>().join(" ")));
             }
         }
         let cuts = rnd_cuts(&mut rng, bytes.len());
         let got = guarded(|| {
-            let mut rec = Recorder::default();
+            let mut rec = Recorder { face: start_face, wraps: false, cells: Vec::new() };
             {
                 let mut w = rec.by_ref().tty_writer();
                 let mut start = 0;
@@ -543,24 +864,34 @@ fn main() {
             }
             rec.cells
         });
-        out.hist("writer");
-        out.case(&format!("w {} {:?}", hex(&bytes), cuts), true);
-        if got.as_ref() != Ok(&want_cells) {
+        o.hist("writer");
+        o.case(&format!("w {} {} {:?}", face_tok(&start_face), hex(&bytes), cuts), true);
+        let show = |v: &Vec<(char, Face)>| v.iter().map(|(c, f)| format!("U+{:04X}:{}", *c as u32, face_tok(f))).collect::<Vec<_>>();
+        let got_show = got.as_ref().map(show).unwrap_or(vec!["panic".into()]);
+        if got.as_ref() != Ok(&want_ign) {
+            o.fail(
+                "C06: cells written through tty_writer do not carry the faces SGR semantics gives",
+                json!({"case": case, "start_face": face_tok(&start_face), "script": script, "cuts": cuts, "has_inexpressible_param": false, "reference": "inexpressible parameters ignored"}),
+                json!(show(&want_ign)),
+                json!(got_show),
+            );
+        } else if got.as_ref() != Ok(&want_full) {
+            // equal to the reference-with-ignored-parameters, different from the full one: only 7/27/39/49 can cause it
             let what = if inexpressible {
                 "C06-inexpressible: SGR parameter the face-modification record cannot express is ignored"
             } else {
                 "C06: cells written through tty_writer do not carry the faces SGR semantics gives"
             };
-            out.fail(
+            o.fail(
                 what,
-                json!({"script": script, "cuts": cuts, "has_inexpressible_param": inexpressible}),
-                json!(want_cells.iter().map(|(c, f)| format!("{c}:{}", face_tok(f))).collect::<Vec<_>>()),
-                json!(got.map(|v| v.iter().map(|(c, f)| format!("{c}:{}", face_tok(f))).collect::<Vec<_>>()).unwrap_or(vec!["panic".into()])),
+                json!({"case": case, "start_face": face_tok(&start_face), "script": script, "cuts": cuts, "has_inexpressible_param": inexpressible}),
+                json!(show(&want_full)),
+                json!(got_show),
             );
         }
         if i % 600 == 0 {
-            out.sample(json!({"script": script, "cuts": cuts}));
+            o.sample(json!({"start_face": face_tok(&start_face), "script": script, "cuts": cuts}));
         }
     }
-    out.finish("number strings (1-30 digits, 10% with a non-digit); SGR parameter strings built from 34 atom kinds (every supported parameter, ; and : colour forms, palette boundaries) joined by `;`, 25% garbage over the SGR alphabet; random faces; random FaceModify / Face values round-tripped through the real encoder (true colour) and command decoder under random read cuts; scripts of SGR sequences and UTF-8 text written through tty_writer() under random write cuts; distinct by content");
+    out.finish("number strings (1-30 digits, 10% with a non-digit, leading zeros); SGR parameter strings of 1-5 atoms from 46 atom kinds (every supported parameter, ; and : colour forms, palette boundaries, leading zeros, 30 unsupported legal parameters, the four inexpressible ones 7/27/39/49, 30 malformed atoms) joined by `;`, 20% garbage over the SGR alphabet; random faces; random FaceModify / Face values and mixed sequences of face commands and characters (all scalar values but ESC: controls, DEL, C1, boundary code points) round-tripped through the real encoder (true colour) and command decoder under random read cuts; scripts of SGR sequences and UTF-8 text written through tty_writer() from a random start face under random write cuts; distinct by content");
 }
